@@ -5,10 +5,10 @@ from .. import core, mpi2, rma
 
 accop = st.fixed_dictionaries({"f": st.sampled_from(["acc", "getacc", "fop", "cas"])},
                               optional={"op": st.sampled_from(rma.OPS), "v": st.integers(0, 40), "noop": st.booleans(), "j": st.integers(0, 2),
-                                        "hit": st.booleans()})
+                                        "hit": st.integers(0, 2)})
 
 plan = st.fixed_dictionaries({"t": st.integers(0, 3), "i": st.integers(0, 7),
-                              "kind": st.sampled_from(["put", "get", "accseq", "accseq", "accmulti", "putget"])},
+                              "kind": st.sampled_from(["put", "get", "accseq", "accseq", "accmulti", "putget", "rmw"])},
                              optional={"c": st.integers(1, 3), "o": st.lists(st.integers(0, 3), min_size=1, max_size=4), "v": st.integers(0, 40),
                                        "ops": st.lists(accop, min_size=1, max_size=4), "op": st.sampled_from(rma.COMMUTATIVE),
                                        "order": st.integers(0, 1), "fl": st.integers(0, 1), "req": st.booleans()})
@@ -40,7 +40,9 @@ class C34(core.Prop):
             "unlock_all) and <= 6 plans over pairwise disjoint element ranges: put (one origin), get (any origins), accseq (ONE origin: a "
             "sequence of Accumulate / Get_accumulate / Fetch_and_op / Compare_and_swap with any predefined op incl. REPLACE and NO_OP, "
             "ordered by MPI's same-origin accumulate ordering), accmulti (several origins, Accumulate with one commutative op), putget "
-            "(passive modes: Put, Win_flush, Get or Get, flush, Put by one origin); request-based variants (Rput...) + Wait in passive "
+            "(passive modes: Put, Win_flush, Get or Get, flush, Put by one origin), rmw (exclusive-lock rounds: several origins each do Get, "
+            "flush, Put(fetched + addend) inside their own exclusive epoch on one element: final value = sum, fetched values = partial sums "
+            "of SOME serial order); request-based variants (Rput...) + Wait in passive "
             "rounds.  The calls of an origin towards one target are interleaved in a drawn order that keeps every plan's own order.  "
             "After every round: barrier, every rank reads its window (inside an exclusive lock on itself after passive rounds), the "
             "fetched values are collected, barrier.  Oracle: interpreter over lists of integers (wrapping unsigned arithmetic; signed "
